@@ -46,7 +46,7 @@ pub fn convert_def(ast: &ASTTy, imp: &mut Imports, state: &State, ctx: &Context)
             } else {
                 let expr = match (&var, expr) {
                     (_, Some(expr)) => match convert_node(expr, imp, &state, ctx)? {
-                        Core::IfElse { .. } | Core::Match { .. } => {
+                        Core::If { .. } | Core::IfElse { .. } | Core::Match { .. } => {
                             // redo convert but with assign to state
                             let name = if annotate { expr.ty.clone() } else { None };
                             let state = state.must_assign_to(Some(&var.clone()), name);
